@@ -1,3 +1,5 @@
+//go:build !noh5
+
 package verifharness
 
 import (
